@@ -56,9 +56,15 @@ def run(case):
         t = mk_tl(tb, case["segs"])
         c = tb.t(case["collar"])
         sup = t.support(c) if case["collar"] else (t.support() if len(case["segs"]) % 2 else t.support(c))
-        return {"iter": segs_of(tb, t), "support": segs_of(tb, sup),
-                "support_iter": segs_of(tb, t.support_iter(c)),
-                "duration": tb.u(t.duration()), "twice": segs_of(tb, sup.support(c))}
+        out = {"iter": segs_of(tb, t), "support": segs_of(tb, sup),
+               "support_iter": segs_of(tb, t.support_iter(c)),
+               "duration": tb.u(t.duration()), "twice": segs_of(tb, sup.support(c))}
+        # a returned support is the caller's to edit: the next call still returns the support of the timeline
+        from harness.tlutil import assert_fresh
+        assert_fresh(tb, lambda: t.support(), "support()")
+        assert_fresh(tb, lambda: t.support(c), "support(collar)")
+        assert segs_of(tb, t) == out["iter"] and tb.u(t.duration()) == out["duration"]
+        return out
     finally:
         tb.leave()
 
